@@ -83,7 +83,21 @@ func LibEncode(v *Value) (out []byte, obj any, err error, panicked any) {
 	obj = ToStruct(v)
 	var buf bytes.Buffer
 	err, panicked, _ = safely(func() error { return EncodeAny(obj, &buf) })
-	return buf.Bytes(), obj, err, panicked
+	out = append([]byte{}, buf.Bytes()...)
+	scribble(&buf)
+	return out, obj, err, panicked
+}
+
+// scribble overwrites the whole backing array of a buffer the harness handed to the library and is done with:
+// if the library kept a reference into it (a cache of "constant" frames, a zero-copy view), that reference now
+// reads garbage and the next comparison shows it.
+func scribble(buf *bytes.Buffer) {
+	b := buf.Bytes()
+	b = b[:cap(b)]
+	for i := range b {
+		b[i] = 0xD5 ^ byte(i)
+	}
+	buf.Reset()
 }
 
 // LibDecode decodes b with the library into a fresh object of the type.
